@@ -28,8 +28,66 @@ def parseApplyMat (ws : List String) : Option (G × Nat × LMat CFloat) :=
       pure (g, cols, unflatRC rows cols v)
   | _ => none
 
+/-! `basis <route> <n> <index>* <term>`: a term made of basis-permuting gates (I, X, CX, Swap, C, Kron, Composite, Loop of
+those) applied to basis states of an `n`-qubit register — plain bit manipulation (qubit 0 = most significant bit of an index;
+the first listed operand = most significant bit of the sub-gate's own index). -/
+
+/-- write the bits of the `bits.length`-bit number `sub` to the listed qubits of the `n`-bit index `idx` -/
+def writeBits (n : Nat) (bits : List Nat) (sub idx : Nat) : Nat :=
+  let k := bits.length
+  bits.zipIdx.foldl (fun acc (q, pos) =>
+    let b := (sub >>> (k - 1 - pos)) % 2
+    let sh := n - 1 - q
+    if b = 1 then acc ||| (1 <<< sh) else acc &&& ((2 ^ n - 1) ^^^ (1 <<< sh))) idx
+
+mutual
+/-- the basis state the term maps basis state `i` (of its own `nrBits` qubits) to -/
+partial def permIdx : G → Nat → Option Nat
+  | .I, i => some i
+  | .X, i => some (i ^^^ 1)
+  | .CX, i => some (if i / 2 = 1 then i ^^^ 1 else i)
+  | .Swap, i => some ((i % 2) * 2 + i / 2)
+  | .C g, i =>
+      let d := 2 ^ Gate.nrBits g
+      if i / d = 1 then (permIdx g (i % d)).map (· + d) else some i
+  | .Kron a b, i => do
+      let d := 2 ^ Gate.nrBits b
+      let x ← permIdx a (i / d)
+      let y ← permIdx b (i % d)
+      pure (x * d + y)
+  | .Composite _ n ops, i => permOps ops n i
+  | .Loop _ iters _ n ops, i => (List.range iters).foldlM (fun acc _ => permOps ops n acc) i
+  | _, _ => none
+partial def permOps : OpList Float → Nat → Nat → Option Nat
+  | .nil, _, i => some i
+  | .cons g bits rest, n, i => do
+      if bits.length ≠ Gate.nrBits g ∨ bits.any (· ≥ n) then none
+      let sub' ← permIdx g (Spec.subIndex n bits i)
+      permOps rest n (writeBits n bits sub' i)
+end
+
+/-- `<route> <n> <index>* <term>` → indices and term -/
+def parseBasis (ws : List String) : Option (Nat × List Nat × G) :=
+  match ws with
+  | _route :: n :: rest => do
+      let n ← n.toNat?
+      let idx := rest.takeWhile (fun w => w.toNat?.isSome)
+      let (g, r) ← parseGate (rest.dropWhile (fun w => w.toNat?.isSome))
+      if r ≠ [] ∨ Gate.nrBits g ≠ n then none
+      pure (n, idx.filterMap (·.toNat?), g)
+  | _ => none
+
+def basisAnswer (ws : List String) : String :=
+  match parseBasis ws with
+  | some (_, idx, g) =>
+    match idx.mapM (permIdx g) with
+    | some out => "ok " ++ joinNats out
+    | none => "bad-op"
+  | none => "bad-op"
+
 def handle (line : String) : String :=
   match words line with
+  | "basis" :: rest => basisAnswer rest
   | "applymat" :: rest =>
     match parseApplyMat rest with
     | some (g, cols, m) =>
@@ -77,6 +135,12 @@ def specCheck (line : String) : String :=
   match line.splitOn "\t" with
   | [req, ans] =>
     match words req, words ans with
+    | "basis" :: rest, got =>
+      -- the reference IS the bit manipulation above (nothing of the matrix model is involved)
+      let want := basisAnswer rest
+      if want = "bad-op" then "fail bad-request"
+      else if want = " ".intercalate got then "ok"
+      else s!"fail basis-state-mapped-wrongly by apply on a {rest.getD 1 "?"}-qubit register: got {" ".intercalate got}, sub-gates on their local qubits give {want}"
     | "applymat" :: rest, "ok" :: rows :: cols :: ent =>
       match parseApplyMat rest, rows.toNat?, cols.toNat?, parseVec ent with
       | some (g, c, m), some rows, some cols, some v =>
